@@ -11,7 +11,7 @@
    `raft_step`, no two members ever hold different entries at the same committed position.
    It is NOT proved in full here; what is proved is listed below (`_partial`).            *)
 From HV Require Import Proto.RaftNet Proto.PRaftLocal Proto.PRaftElection Proto.PRaftRefine Proto.PRaftLeader
-  Proto.PRaftWf Proto.PRaftLog Proto.PRaftLogRefine Proto.PRaftSms Proto.PRaftExamples.
+  Proto.PRaftWf Proto.PRaftLog Proto.PRaftLogRefine Proto.PRaftSms Proto.PRaftLogTerms Proto.PRaftExamples.
 From HV Require Proto.PaxosModel Proto.PPaxos Proto.PaxosCheck Proto.PPaxosRecommit.
 
 Definition C40_raft_sms (n : N) : Prop := C40_raft_sms_stmt n.
@@ -131,6 +131,15 @@ Theorem C40_raft_vote_restriction : forall others maj s from t lli llt s' o to r
   pair_ge (llt, lli) (last_log_position s) = true /\ to = from /\ r = RVR (term s') /\ voted_for s' = Some from.
 Proof. exact vote_restriction. Qed.
 Print Assumptions C40_raft_vote_restriction.
+
+(* log terms are non-decreasing along every log and never exceed the member's current term
+   (a step towards Leader Completeness) *)
+Theorem C40_raft_log_terms_monotone : forall n g, reachable n g -> forall a,
+  (forall i j ei ej, (i <= j)%nat -> nth_error (log (g_st g a)) i = Some ei ->
+                     nth_error (log (g_st g a)) j = Some ej -> e_term ei <= e_term ej) /\
+  (forall i e, nth_error (log (g_st g a)) i = Some e -> e_term e <= term (g_st g a)).
+Proof. exact log_terms_monotone. Qed.
+Print Assumptions C40_raft_log_terms_monotone.
 
 (* ------------------------------------------------------------------ Paxos *)
 (* abstract multi-Paxos (ballots, p1a/p1b/p2a/p2b; Proto/PaxosModel.v): at most one value is ever
